@@ -59,6 +59,7 @@ class _M:
     wrapped_functions = {}
     fn_names = {}           # id(callable) -> name, for canonical forms
     all_lambdas_alive = []  # keeps lambda objects alive so ids are not reused within a run
+    program_lambdas = {}    # id -> result of a LambdaOp node evaluation (function, callable object, whatever the package uses)
     node_classes = []
 
 
@@ -119,6 +120,9 @@ def _wrap_node(cls, orig, is_lambda):
             except Exception:
                 pass
             rec.lambdas.append(v)
+            if len(M.program_lambdas) > 200000:
+                M.program_lambdas.clear()
+            M.program_lambdas[id(v)] = v          # whatever object a LambdaOp node evaluates to IS a program's lambda (kept alive: ids stay unique)
         for hook in rec.value_hooks:
             hook(self, v, rec)
         return v
